@@ -19,14 +19,23 @@ STEP_ARGS = {"Insert": ["t"], "InsertQueued": [], "Extract": ["c"], "Block": ["t
              "Preconf": ["t", "kind", "outs", "h"], "Expire": ["ids"], "ExpirePending": []}
 
 
-def universe(wd):
-    r = vlib.require_clean(vlib.tlc("Uni_TxPool", "Uni_TxPool.cfg", workers=1, name="txpool-universe"), "universe")
+def universe(wd, suffix=""):
+    r = vlib.require_clean(vlib.tlc("Uni_TxPool", "Uni_TxPool%s.cfg" % suffix, workers=1,
+                                    name="txpool-universe-" + os.path.basename(wd)), "universe")
     u = r.printed("UNIVERSE")
     if len(u) != 1:
         raise vlib.ToolError("universe not printed")
     p = os.path.join(wd, "universe.json")
     json.dump(u[0], open(p, "w"))
     return p, u[0]
+
+
+def sim_counts(r):
+    """TLC's simulation summary: every generated successor is checked; there is no notion of distinct states"""
+    m = re.search(r"The number of states generated: (\d+)", r.out)
+    if m:
+        r.generated = int(m.group(1))
+    return r
 
 
 _STR = re.compile(r'"((?:[^"\\]|\\.)*)"')
@@ -37,10 +46,11 @@ def sim_walks(cfg, n_per_worker, depth, wd, workers=4, timeout=600):
     its last state is the sequence of action labels (JSON strings)."""
     d = os.path.join(wd, "sim")
     os.makedirs(d, exist_ok=True)
-    r = vlib.tlc(MODULE, cfg, name="txpool-sim", workers=workers, timeout=timeout,
+    r = vlib.tlc(MODULE, cfg, name="txpool-sim-" + os.path.basename(wd), workers=workers, timeout=timeout,
                  extra=["-simulate", "file=%s/w,num=%d" % (d, n_per_worker), "-depth", str(depth),
                         "-seed", str(vlib.seed())])
     vlib.require_clean(r, "simulate")
+    sim_counts(r)
     walks = []
     for f in sorted(glob.glob(d + "/w_*")):
         txt = open(f).read()
@@ -154,9 +164,12 @@ def run_family(rep, tier, args, prop, selftest=None, extra=None):
     info = PROPS[prop]
     rep.assumptions += ASSUMPTIONS
     wd = vlib.workdir(prop)
-    uni, udata = universe(wd)
+    quick = tier == "quick"
+    suffix = "" if quick else "_thorough"       # thorough: larger pool limits / LRU / chain limit (see *_thorough.cfg)
+    uni, udata = universe(wd, suffix)
     hbin = os.path.join(vlib.cargo_build("h-txpool"), "h-txpool")
-    cfg = info["cfg"]
+    cfg = info["cfg"].replace(".cfg", suffix + ".cfg")
+    rep.extra["constants"] = udata["consts"]
     key_fn = slim_key
     if args.replay:
         v = vlib.validate_trace(TRACE, cfg, args.replay, name=prop + "-replay")
@@ -164,24 +177,27 @@ def run_family(rep, tier, args, prop, selftest=None, extra=None):
         if extra:
             extra(rep, tier, wd, uni, udata, hbin, replay=args.replay)
         return
-    quick = tier == "quick"
-    mc_cfg = "MC_TxPool.cfg" if quick else "MC_TxPool_thorough.cfg"
-    n_sim, depth = (75, 15) if quick else (600, 21)
-    n_rnd, len_rnd = (220, 40) if quick else (2500, 50)
+    mc_cfg = "MC_TxPool%s.cfg" % suffix
+    n_sim, depth = (100, 15) if quick else (300, 21)
+    n_rnd, len_rnd = (300, 40) if quick else (1200, 50)
+    parts = 2 if quick else 4
 
     def job_mc():
-        return vlib.require_clean(vlib.tlc(MODULE, mc_cfg, name=prop + "-mc", workers=6, timeout=3000 if quick else 6000,
-                                           coverage=not quick), "MC")
+        r = vlib.tlc(MODULE, mc_cfg, name=prop + "-mc", workers=6, timeout=3000 if quick else 6000)
+        if r.tool_error and "ran out of memory" in r.out:
+            # transient on a loaded machine (native threads / heap): one retry with fewer workers and a larger heap
+            r = vlib.tlc(MODULE, mc_cfg, name=prop + "-mc", workers=3, timeout=6000, xmx="8g")
+        return vlib.require_clean(r, "MC")
 
     def job_b2():
-        r, walks = sim_walks("Sim_TxPool.cfg" if quick else "Sim_TxPool_thorough.cfg", n_sim, depth, wd)
+        r, walks = sim_walks("Sim_TxPool%s.cfg" % suffix, n_sim, depth, wd, timeout=3000)
         tp = run_walks(hbin, uni, walks, wd, "b2")
-        v = validate(cfg, tp, prop + "-b2")
+        v = validate_parallel(cfg, tp, prop + "-b2", parts)
         return r, walks, tp, v
 
     def job_b3():
         tp = run_random(hbin, uni, n_rnd, len_rnd, wd, "b3")
-        v = validate(cfg, tp, prop + "-b3")
+        v = validate_parallel(cfg, tp, prop + "-b3", parts)
         return tp, v
 
     with ThreadPoolExecutor(max_workers=3) as ex:
@@ -199,12 +215,8 @@ def run_family(rep, tier, args, prop, selftest=None, extra=None):
             steps = last_hist(r.out)
             if r.violated and steps:
                 tpc = run_walks(hbin, uni, [steps], wd, "cex-" + nm)
-                register(rep, vlib.validate_trace(TRACE, "Trace_TxPool_all.cfg", tpc, name=prop + "-cex-" + nm),
+                register(rep, vlib.validate_trace(TRACE, "Trace_TxPool_all%s.cfg" % suffix, tpc, name=prop + "-cex-" + nm),
                          prop + "-cex-" + nm, key_fn)
-    if not quick:
-        cov = mc.coverage()
-        rep.extra["coverage"] = {k: v for k, v in cov.items() if k in (
-            "Insert", "InsertQueued", "Extract", "Block", "Preconf", "Expire", "ExpirePending")}
     register(rep, v2, prop + "-b2", key_fn)
     register(rep, v3, prop + "-b3", key_fn)
     rep.extra["b2_walks"] = len(walks)
@@ -281,4 +293,32 @@ def validate(cfg, tp, name, timeout=3000):
                 bad = bad[:max(2, int(ls[-1]) - 1 - off)]
             v.violations.append((bad, r.violated, ""))
             remaining = remaining[idx + 1:]
+    return v
+
+
+def validate_parallel(cfg, tp, name, parts, timeout=3000):
+    """validate() on `parts` slices of the trace in parallel (trace validation is single-threaded in TLC)."""
+    from concurrent.futures import ThreadPoolExecutor
+    walks = vlib.split_trace(tp)
+    parts = max(1, min(parts, len(walks)))
+    if parts == 1:
+        return validate(cfg, tp, name, timeout)
+    size = (len(walks) + parts - 1) // parts
+    files = []
+    for i in range(parts):
+        chunk = walks[i * size:(i + 1) * size]
+        if not chunk:
+            continue
+        p = "%s.part%d" % (tp, i)
+        open(p, "w").write("\n".join("\n".join(w) for w in chunk) + "\n")
+        files.append(p)
+    with ThreadPoolExecutor(max_workers=len(files)) as ex:
+        vs = list(ex.map(lambda a: validate(cfg, a[1], "%s-p%d" % (name, a[0]), timeout), enumerate(files)))
+    v = vs[0]
+    for o in vs[1:]:
+        v.accepted += o.accepted
+        v.events += o.events
+        v.states += o.states
+        v.divergent += o.divergent
+        v.violations += o.violations
     return v
